@@ -517,3 +517,230 @@ pub mod bitset {
         }
     }
 }
+
+
+/// Direct-indexed stand-in for BTreeMap / HashMap with SMALL unsigned integer keys: slot index == key (keys < DCAP,
+/// a stated bound: a larger key is `assume(false)` under Kani). Every lookup is one array access with a (possibly
+/// symbolic) index - no search loops; ordered iteration and range() walk the slots in ascending order.
+pub mod direct {
+    use super::bitset::SmallKey;
+    pub const DCAP: usize = 8;
+
+    fn bound(i: usize) {
+        if i >= DCAP {
+            #[cfg(kani)]
+            kani::assume(false);
+            panic!("direct map key >= DCAP (bound of the verification harness)");
+        }
+    }
+
+    #[derive(Clone, Debug)]
+    pub struct BTreeMap<K, V> {
+        pub slots: [Option<(K, V)>; DCAP],
+        _k: std::marker::PhantomData<K>,
+    }
+    pub type HashMap<K, V> = BTreeMap<K, V>;
+
+    pub enum Entry<'a, K, V> {
+        Occupied(OccupiedEntry<'a, K, V>),
+        Vacant(VacantEntry<'a, K, V>),
+    }
+    pub mod btree_map {
+        pub use super::{Entry, OccupiedEntry, VacantEntry};
+    }
+    pub struct OccupiedEntry<'a, K, V> {
+        map: &'a mut BTreeMap<K, V>,
+        idx: usize,
+        key: K,
+    }
+    pub struct VacantEntry<'a, K, V> {
+        map: &'a mut BTreeMap<K, V>,
+        idx: usize,
+        key: K,
+    }
+
+    impl<K, V> Default for BTreeMap<K, V> {
+        fn default() -> Self {
+            BTreeMap { slots: [const { None }; DCAP], _k: std::marker::PhantomData }
+        }
+    }
+    impl<K, V> BTreeMap<K, V> {
+        pub fn new() -> Self {
+            Self::default()
+        }
+        pub fn len(&self) -> usize {
+            let mut n = 0;
+            let mut i = 0;
+            while i < DCAP {
+                if self.slots[i].is_some() { n += 1; }
+                i += 1;
+            }
+            n
+        }
+        pub fn is_empty(&self) -> bool {
+            self.len() == 0
+        }
+        fn first_idx_from(&self, from: usize) -> Option<usize> {
+            let mut i = from;
+            while i < DCAP {
+                if self.slots[i].is_some() { return Some(i); }
+                i += 1;
+            }
+            None
+        }
+        fn last_idx(&self) -> Option<usize> {
+            let mut best = None;
+            let mut i = 0;
+            while i < DCAP {
+                if self.slots[i].is_some() { best = Some(i); }
+                i += 1;
+            }
+            best
+        }
+    }
+    impl<K: SmallKey, V> BTreeMap<K, V> {
+        pub fn get(&self, k: &K) -> Option<&V> {
+            let i = k.idx();
+            if i >= DCAP { return None; }
+            self.slots[i].as_ref().map(|(_, v)| v)
+        }
+        pub fn get_mut(&mut self, k: &K) -> Option<&mut V> {
+            let i = k.idx();
+            if i >= DCAP { return None; }
+            self.slots[i].as_mut().map(|(_, v)| v)
+        }
+        pub fn contains_key(&self, k: &K) -> bool {
+            self.get(k).is_some()
+        }
+        pub fn insert(&mut self, k: K, v: V) -> Option<V> {
+            let i = k.idx();
+            bound(i);
+            self.slots[i].replace((k, v)).map(|(_, o)| o)
+        }
+        pub fn remove(&mut self, k: &K) -> Option<V> {
+            let i = k.idx();
+            if i >= DCAP { return None; }
+            self.slots[i].take().map(|(_, v)| v)
+        }
+        pub fn entry(&mut self, key: K) -> Entry<'_, K, V> {
+            let idx = key.idx();
+            bound(idx);
+            if self.slots[idx].is_some() {
+                Entry::Occupied(OccupiedEntry { map: self, idx, key })
+            } else {
+                Entry::Vacant(VacantEntry { map: self, idx, key })
+            }
+        }
+        pub fn first_entry(&mut self) -> Option<OccupiedEntry<'_, K, V>> {
+            match self.first_idx_from(0) {
+                Some(idx) => Some(OccupiedEntry { map: self, idx, key: K::from_idx(idx) }),
+                None => None,
+            }
+        }
+        pub fn last_entry(&mut self) -> Option<OccupiedEntry<'_, K, V>> {
+            match self.last_idx() {
+                Some(idx) => Some(OccupiedEntry { map: self, idx, key: K::from_idx(idx) }),
+                None => None,
+            }
+        }
+        pub fn pop_first(&mut self) -> Option<(K, V)> {
+            match self.first_idx_from(0) {
+                Some(i) => self.slots[i].take(),
+                None => None,
+            }
+        }
+        pub fn pop_last(&mut self) -> Option<(K, V)> {
+            match self.last_idx() {
+                Some(i) => self.slots[i].take(),
+                None => None,
+            }
+        }
+        pub fn first_key_value(&self) -> Option<(&K, &V)> {
+            self.first_idx_from(0).map(|i| { let (k, v) = self.slots[i].as_ref().unwrap(); (k, v) })
+        }
+        pub fn last_key_value(&self) -> Option<(&K, &V)> {
+            self.last_idx().map(|i| { let (k, v) = self.slots[i].as_ref().unwrap(); (k, v) })
+        }
+        pub fn retain<F: FnMut(&K, &mut V) -> bool>(&mut self, mut f: F) {
+            let mut i = 0;
+            while i < DCAP {
+                let keep = match &mut self.slots[i] {
+                    Some((k, v)) => f(k, v),
+                    None => true,
+                };
+                if !keep { self.slots[i] = None; }
+                i += 1;
+            }
+        }
+        pub fn iter(&self) -> Iter<'_, K, V> {
+            Iter { map: self, pos: 0, end: DCAP }
+        }
+        pub fn keys(&self) -> Keys<'_, K, V> {
+            Keys { it: self.iter() }
+        }
+        pub fn values(&self) -> Values<'_, K, V> {
+            Values { it: self.iter() }
+        }
+        /// entries with keys inside `r`, ascending
+        pub fn range<R: std::ops::RangeBounds<K>>(&self, r: R) -> Iter<'_, K, V> {
+            use std::ops::Bound::*;
+            let lo = match r.start_bound() { Included(k) => k.idx(), Excluded(k) => k.idx().saturating_add(1), Unbounded => 0 };
+            let hi = match r.end_bound() { Included(k) => k.idx().saturating_add(1), Excluded(k) => k.idx(), Unbounded => DCAP };
+            Iter { map: self, pos: if lo > DCAP { DCAP } else { lo }, end: if hi > DCAP { DCAP } else { hi } }
+        }
+    }
+    pub struct Iter<'a, K, V> {
+        map: &'a BTreeMap<K, V>,
+        pos: usize,
+        end: usize,
+    }
+    impl<'a, K: SmallKey, V> Iterator for Iter<'a, K, V> {
+        type Item = (&'a K, &'a V);
+        fn next(&mut self) -> Option<Self::Item> {
+            while self.pos < self.end {
+                let p = self.pos;
+                self.pos += 1;
+                if let Some((k, v)) = &self.map.slots[p] {
+                    return Some((k, v));
+                }
+            }
+            None
+        }
+    }
+    pub struct Keys<'a, K, V> { it: Iter<'a, K, V> }
+    impl<'a, K: SmallKey, V> Iterator for Keys<'a, K, V> {
+        type Item = &'a K;
+        fn next(&mut self) -> Option<&'a K> { self.it.next().map(|(k, _)| k) }
+    }
+    pub struct Values<'a, K, V> { it: Iter<'a, K, V> }
+    impl<'a, K: SmallKey, V> Iterator for Values<'a, K, V> {
+        type Item = &'a V;
+        fn next(&mut self) -> Option<&'a V> { self.it.next().map(|(_, v)| v) }
+    }
+    impl<'a, K: SmallKey, V> Entry<'a, K, V> {
+        pub fn or_insert_with<F: FnOnce() -> V>(self, f: F) -> &'a mut V {
+            match self {
+                Entry::Occupied(e) => e.into_mut(),
+                Entry::Vacant(e) => e.insert(f()),
+            }
+        }
+        pub fn or_insert(self, v: V) -> &'a mut V { self.or_insert_with(|| v) }
+        pub fn or_default(self) -> &'a mut V where V: Default { self.or_insert_with(V::default) }
+    }
+    impl<'a, K: SmallKey, V> OccupiedEntry<'a, K, V> {
+        pub fn get(&self) -> &V { &self.map.slots[self.idx].as_ref().unwrap().1 }
+        pub fn get_mut(&mut self) -> &mut V { &mut self.map.slots[self.idx].as_mut().unwrap().1 }
+        pub fn into_mut(self) -> &'a mut V { &mut self.map.slots[self.idx].as_mut().unwrap().1 }
+        pub fn key(&self) -> &K { &self.key }
+        pub fn remove(self) -> V { self.map.slots[self.idx].take().unwrap().1 }
+        pub fn remove_entry(self) -> (K, V) { self.map.slots[self.idx].take().unwrap() }
+        pub fn insert(&mut self, v: V) -> V { std::mem::replace(&mut self.map.slots[self.idx].as_mut().unwrap().1, v) }
+    }
+    impl<'a, K: SmallKey, V> VacantEntry<'a, K, V> {
+        pub fn insert(self, v: V) -> &'a mut V {
+            self.map.slots[self.idx] = Some((self.key, v));
+            &mut self.map.slots[self.idx].as_mut().unwrap().1
+        }
+        pub fn key(&self) -> &K { &self.key }
+    }
+}
